@@ -34,3 +34,14 @@ Lemma ex12_uncompressed_ok : exists r, assemble_items ex12 [] [] false = Done r.
 Proof. eexists. vm_compute. reflexivity. Qed.
 Lemma ex12_compressed_fails : assemble_items ex12 [] [] true = Fail (PAsm (exL 3)).
 Proof. vm_compute. reflexivity. Qed.
+
+(* C12, second family (known finding K2): the ABSOLUTE value of a label inside a non-transfer immediate at the edge of its range:
+   add x8, x8, x9 / L: / addi x1, x0, 2050 - L   -- L = 4 without compression (2046: accepted), L = 2 with it (2048: refused) *)
+Definition ex13 : list litem :=
+  [(exL 1, exR3 "add" "x8" "x8" "x9"); (exL 2, ILabel "L");
+   (exL 3, IInstr "ITypeInstruction" "addi" [("rd", FReg (AStr "x1")); ("rs1", FReg (AStr "x0"));
+                                             ("imm", FExpr (EArith (ABin OSub (ANum 2050) (AName "L")))); ("is_auipc_jump", FBool false)] false)].
+Lemma ex13_uncompressed_ok : exists r, assemble_items ex13 [] [] false = Done r.
+Proof. eexists. vm_compute. reflexivity. Qed.
+Lemma ex13_compressed_fails : assemble_items ex13 [] [] true = Fail (PAsm (exL 3)).
+Proof. vm_compute. reflexivity. Qed.
